@@ -48,7 +48,11 @@ func rulesFastaWriter(c *Ctx, r *Report) {
 		r.violated("W-HDR", where, "name line", c.pos(w.Pos()), "no write whose constant format starts with '>'")
 	} else {
 		okFmt := *hdr.format == ">%s\n"
-		okArg := len(hdr.args) == 1 && recvFieldName(w, s.expr(hdr.args[0])) == "Name"
+		hs := s
+		if hdr.sy != nil {
+			hs = hdr.sy // the write lives in a helper: its operand in Write's vocabulary
+		}
+		okArg := len(hdr.args) == 1 && recvFieldName(w, hs.expr(hdr.args[0])) == "Name"
 		unconditional := true
 		instrs(w, func(in ssa.Instruction) {
 			if rt, ok := in.(*ssa.Return); ok && !hdr.site.Block().Dominates(rt.Block()) {
@@ -128,6 +132,10 @@ func rulesFastaWriter(c *Ctx, r *Report) {
 		for _, ref := range *iphi.Referrers() {
 			if b, ok := ref.(*ssa.BinOp); ok && b.Op == token.LSS && b.X == ssa.Value(iphi) && b.Block() == iphi.Block() {
 				bound = s.expr(b.Y).String()
+			}
+			// the same test with the operands the other way round: len > i
+			if b, ok := ref.(*ssa.BinOp); ok && b.Op == token.GTR && b.Y == ssa.Value(iphi) && b.Block() == iphi.Block() {
+				bound = s.expr(b.X).String()
 			}
 		}
 	}
